@@ -75,6 +75,14 @@ Theorem C04_duration_at_least_measure : forall eps l lo n, 0 <= eps -> wf eps l 
   (forall s, In s l -> lo <= st s /\ en s <= lo + Z.of_nat n) ->
   measure lo n l <= tl_duration eps l.
 Proof. exact duration_at_least_measure. Qed.
+(* ... and exceeds it by at most the precision per member: each bridged gap is no longer than eps *)
+Theorem C04_duration_at_most_measure_plus_eps : forall eps l lo n, 0 <= eps -> wf eps l ->
+  (forall s, In s l -> lo <= st s /\ en s <= lo + Z.of_nat n) ->
+  tl_duration eps l <= measure lo n l + eps * Z.of_nat (length l).
+Proof. exact (fun eps l lo n Heps => duration_at_most_measure_plus eps Heps lo n l). Qed.
+Example C04_duration_bounds_nonvacuous :
+  wf 4 [(0,20); (23,40); (50,60)] /\ tl_duration 4 [(0,20); (23,40); (50,60)] = 50 /\ measure 0 60 [(0,20); (23,40); (50,60)] = 47.
+Proof. split; [split; repeat constructor | vm_compute; split; reflexivity]. Qed.
 
 Example C04_nonvacuous :
   wf 1 [(0,4); (1,3); (5,9); (12,14); (14,20)] /\
@@ -102,3 +110,4 @@ Print Assumptions C04_support_is_the_unique_canonical.
 Print Assumptions C04_absorbs_covered.
 Print Assumptions C04_duration_is_measure.
 Print Assumptions C04_duration_at_least_measure.
+Print Assumptions C04_duration_at_most_measure_plus_eps.
